@@ -188,6 +188,9 @@ fn dispatch(ctx: &mut Ctx, hk: usize, content: &[u8], split: &[usize]) {
     let none = |_: &[u8]| None;
     match hk {
         0 => boxed_case::<DynSizedStructure<TagHeader>>(ctx, "TagHeader", 8, 4, || TagHeader::new(TagType::Custom(0x1337), 0), content, split, &none),
+        5 => boxed_case::<DynSizedStructure<TagHeader>>(ctx, "TagHeader(End)", 8, 4, || TagHeader::new(TagType::End, 0), content, split, &none),
+        6 => boxed_case::<DynSizedStructure<HeaderTagHeader>>(ctx, "HeaderTagHeader(End)", 8, 4, || HeaderTagHeader::new(HeaderTagType::End, HeaderTagFlag::Required, 0), content, split, &none),
+        7 => boxed_case::<DynSizedStructure<TagHeader>>(ctx, "TagHeader(Module)", 8, 4, || TagHeader::new(TagType::Module, 0), content, split, &none),
         1 => boxed_case::<DummyDstTag>(ctx, "DummyTestHeader", 8, 4, || DummyTestHeader::new(42, 0), content, split, &none),
         2 => boxed_case::<DynSizedStructure<HeaderTagHeader>>(ctx, "HeaderTagHeader", 8, 4, || HeaderTagHeader::new(HeaderTagType::Address, HeaderTagFlag::Optional, 0), content, split, &none),
         3 => boxed_case::<DynSizedStructure<BootInformationHeader>>(ctx, "BootInformationHeader", 8, 0, || unsafe { std::mem::transmute::<[u32; 2], BootInformationHeader>([0, 0xA5B6_C7D8]) }, content, split, &none),
@@ -260,7 +263,7 @@ fn run(ctx: &mut Ctx) {
     }
     // many small slices (a constructor with many scalar fields; running totals crossing 16, 32, 64, 128 bytes)
     let kmax = if ctx.quick() { 12 } else { 14 };
-    ctx.bound("new_boxed_many_slices", format!("k slices for k in 5..={}: every sequence of lengths over {{7, 8}}; every sequence over {{1, 2, 4, 8}} for k <= {}; uniform runs of k = 1..=40 slices of length 0..=9 and 15..=17; header kinds TagHeader and Multiboot2BasicHeader", kmax, if ctx.quick() { 6 } else { 8 }));
+    ctx.bound("new_boxed_many_slices", format!("k slices for k in 5..={}: every sequence of lengths over {{7, 8}}; every sequence over {{1, 2, 4, 8}} for k <= {}; uniform runs of k = 1..=40 slices of length 0..=9 and 15..=17; header kinds TagHeader (custom, end and module type), HeaderTagHeader (end type) and Multiboot2BasicHeader", kmax, if ctx.quick() { 6 } else { 8 }));
     {
         let mut cases: Vec<Vec<usize>> = vec![];
         for k in 5..=kmax {
@@ -281,7 +284,7 @@ fn run(ctx: &mut Ctx) {
         for (ci, split) in cases.iter().enumerate() {
             let n: usize = split.iter().sum();
             let content: Vec<u8> = (0..n).map(|i| marker(i, 65)).collect();
-            let hk = if ci % 2 == 0 { 0 } else { 4 };
+            let hk = [0usize, 4, 5, 6, 7][ci % 5];
             let describe = || J::obj().set("part", "new_boxed_many_slices").set("header_kind", hk).set("content_len", n).set("split", format!("{:?}", split));
             ctx.leaf(describe, |ctx| {
                 ctx.state_direct();
@@ -299,7 +302,7 @@ fn run(ctx: &mut Ctx) {
                 let sel: Vec<usize> = (0..k).map(|i| (code / pieces.len().pow(i as u32)) % pieces.len()).collect();
                 let content: Vec<u8> = sel.iter().flat_map(|&i| pieces[i].iter().copied()).collect();
                 let split: Vec<usize> = sel.iter().map(|&i| pieces[i].len()).collect();
-                let hk = code % 5;
+                let hk = code % 8;
                 let describe = || J::obj().set("part", "new_boxed_zero_runs").set("header_kind", hk).set("pieces", format!("{:?} (0 = 64 zeros, 1 = 63 zeros, 2 = 128 zeros, 3 = 4096 zeros, 4 = 3 non-zero bytes, 5 = 64 non-zero bytes, 6 = empty)", sel));
                 ctx.leaf(describe, |ctx| {
                     ctx.state_direct();
